@@ -131,7 +131,20 @@ def worker_ring(cfg, tier):
         if not goal:
             continue
         v, m, s = smt.check(assume + pre, z3.And(*goal), tmo)
-        o = Ob(name, v, s, cfg, key=key, what=what)
+        if v == "unknown" and len(goal) > 1:  # one big conjunction did not finish: decide the conjuncts one by one within the same budget
+            v, t_left = "unsat", float(tmo)
+            for gi in goal:
+                vi, mi, si_ = smt.check(assume + pre, gi, max(5, int(t_left)))
+                s += si_
+                t_left -= si_
+                if vi == "sat":
+                    v, m = "sat", mi
+                    break
+                if vi == "unknown" or t_left <= 0:
+                    v = "unknown"
+                    break
+        heavy = tier == "thorough" and (inst.get("kind") == "three" or inst.get("trainable"))  # largest symbolic states: reported and dropped if the budget runs out
+        o = Ob(name, v, s, cfg, key=key, what=what, optional=heavy)
         if v == "sat":
             o.replayed = _replay_instance(dict(inst, extra_padding=pad))
             o.detail = "solver model found for the symbolic-schedule step; replay = part-2 run of the same instance on the real code"
